@@ -11,6 +11,9 @@ def gen(tier, seed, work):
     runs = []
     runs.append(vlib.run_tlc("Lang", "MC_Lang_build_quick.cfg" if tier == "quick" else "MC_Lang_build.cfg",
                              work, workers=8, timeout=1500))
+    # random deep programs: the same builder under -simulate (must grow to MINNODES, at most 3 forms side by side)
+    runs.append(vlib.run_tlc("Lang", "MC_Lang_sim.cfg", work, workers=4, timeout=900,
+                             simulate=f"num={400 if tier == 'quick' else 8000}", seed=seed, depth=900))
     return runs
 
 
@@ -28,7 +31,7 @@ def run(tier, seed):
     verdicts = vlib.replay(cases, work, jobs=12, timeout_ms=10000, name="c01")
     r.add_cases(cases, verdicts, nontrivial=lc.nontrivial)
     r.cov["rule"] = ("programs assembled by Lang.tla's builder (all programs within the node budget) "
-                     "and run on its CEK machine; non-trivial = observes an emit, an error or a non-void value")
+                     "+ seeded random walks of the builder (9-16 nodes) + LangFam.tla families, run on its CEK machine; non-trivial = observes an emit, an error or a non-void value")
     r.cov["exhaustive"] = True
     return r.finish()
 
